@@ -27,8 +27,9 @@ type c03Case struct {
 
 func init() {
 	mc.Register(&mc.Property{
-		ID:    "C03",
-		Level: "exploration",
+		ID:     "C03",
+		Word32: true,
+		Level:  "exploration",
 		Rule: "E1 bounded-exhaustive enumeration in two builds: (a) complete: every level mask of height ≤H × every node of the tree (all 2^(h+1)-1 paths), PathToIndexLoose on every node and PathToIndex on every node of a stored level, oracle = explicit recursive pre-order walk numbering stored nodes; " +
 			"(b) tall: for every height ≤30 a mask family (full, leaf-only, one level missing, one or two extra levels stored, two alternating patterns, every combination of the five lowest levels and of the five levels right below the top) × a path family per length (all-0, all-1, alternating, single-1 and single-0 at every position), oracle = closed form (stored ancestors + stored size of skipped left subtrees) which is itself cross-checked against the walk on every case of (a). " +
 			"The same enumeration is executed by a second binary built with -tags debug (contracts active), with a smaller complete bound. A case is one (mask, node, function, build); non-trivial when the mask is neither full nor leaf-only and the node is not the root.",
